@@ -304,4 +304,117 @@ theorem T_parseName (origin : Option (List UInt8)) (horigin : ∀ o, origin = so
       have h2 := expectFieldImpl_le (· == ·) [46] (expectField [64] st).2
       exact (nameLoop_good origin horigin _ _ _ _ _ _ BInv_new).weaken (Nat.le_trans h2 h1) (fun _ h => h)
 
+/-! ### character-strings and include paths -/
+
+/-- outcome of the string loops: `(string, rest, line)` -/
+def GoodL (r : Out Err (List UInt8 × List UInt8 × Nat)) (n max : Nat) : Prop :=
+  match r with
+  | .ok (s, inp', _) => s.length ≤ max ∧ inp'.length ≤ n
+  | .err e => e.kind ≠ .ModelStuck
+  | .panic => False
+
+theorem GoodL.weaken {r : Out Err (List UInt8 × List UInt8 × Nat)} {n m max : Nat}
+    (h : GoodL r n max) (hnm : n ≤ m) : GoodL r m max := by
+  unfold GoodL at *
+  split
+  · exact ⟨h.1, by have := h.2; omega⟩
+  · exact h
+  · exact h
+
+theorem quotedLoop_good (max : Nat) (tooLong eofKind : Kind) (h1 : tooLong ≠ .ModelStuck)
+    (h2 : eofKind ≠ .ModelStuck) (startLine : Nat) (inp : List UInt8) (line : Nat) (acc : List UInt8)
+    (n : Nat) (hacc : acc.length = n) (hn : n ≤ max) :
+    GoodL (quotedLoop max tooLong eofKind startLine inp line acc n) inp.length max := by
+  fun_induction quotedLoop max tooLong eofKind startLine inp line acc n
+  all_goals (simp only [GoodL, fail])
+  all_goals try (simp [h1, h2]; done)
+  all_goals try (exact parseEscapeL_ne_panic _ _ ‹_›)
+  all_goals try (exact parseEscapeL_err ‹_›)
+  · rename_i hesc hlt ih
+    have := parseEscapeL_length hesc
+    exact (ih (by simp [hacc]) (by omega)).weaken (by simp; omega)
+  · simp; omega
+  · rename_i hlt ih
+    exact (ih (by simp [hacc]) (by omega)).weaken (by simp)
+
+theorem unquotedLoop_good (max : Nat) (tooLong : Kind) (h1 : tooLong ≠ .ModelStuck)
+    (startLine : Nat) (inp : List UInt8) (line : Nat) (acc : List UInt8)
+    (n : Nat) (hacc : acc.length = n) (hn : n ≤ max) :
+    GoodL (unquotedLoop max tooLong startLine inp line acc n) inp.length max := by
+  fun_induction unquotedLoop max tooLong startLine inp line acc n
+  all_goals (simp only [GoodL, fail])
+  all_goals try (simp [h1]; done)
+  all_goals try (exact parseEscapeL_ne_panic _ _ ‹_›)
+  all_goals try (exact parseEscapeL_err ‹_›)
+  all_goals try (simp [atFieldEnd] at *; done)
+  · simp; omega
+  · rename_i ih
+    have := parseEscapeL_length ‹_›
+    exact (ih (by simp [hacc]) (by omega)).weaken (by simp; omega)
+  · rename_i ih
+    exact (ih (by simp [hacc]) (by omega)).weaken (by simp)
+
+/-- an unquoted string that does not start at a field end consumes at least one octet -/
+theorem unquotedLoop_strict {max : Nat} {tooLong : Kind} (h1 : tooLong ≠ .ModelStuck) {startLine : Nat}
+    {inp : List UInt8} {line : Nat} {s inp' : List UInt8} {line' : Nat} (hfe : atFieldEnd inp = false)
+    (h : unquotedLoop max tooLong startLine inp line [] 0 = .ok (s, inp', line')) :
+    inp'.length < inp.length := by
+  unfold unquotedLoop at h
+  simp [hfe] at h
+  split at h
+  · cases h
+  · next c rest =>
+    have rec_le : ∀ (l : List UInt8) (ln : Nat) (a : List UInt8) (k : Nat), a.length = k → k ≤ max →
+        unquotedLoop max tooLong startLine l ln a k = .ok (s, inp', line') → inp'.length ≤ l.length := by
+      intro l ln a k ha hk hr
+      have g := unquotedLoop_good max tooLong h1 startLine l ln a k ha hk
+      rw [hr] at g; exact g.2
+    split at h
+    · split at h
+      · next e rest' l' hesc =>
+        have := parseEscapeL_length hesc
+        split at h
+        · simp [fail] at h
+        · next hlt => have := rec_le _ _ _ _ (by simp) (by omega) h; simp; omega
+      · cases h
+      · cases h
+    · split at h
+      · simp [fail] at h
+      · next hlt => have := rec_le _ _ _ _ (by simp) (by omega) h; simp; omega
+
+theorem T_parseString (max : Nat) (tooLong eofKind : Kind) (h1 : tooLong ≠ .ModelStuck)
+    (h2 : eofKind ≠ .ModelStuck) : T (parseString max tooLong eofKind) (fun s => s.length ≤ max) := by
+  intro st
+  unfold parseString
+  split
+  · next rest heq =>
+    have g := quotedLoop_good max tooLong eofKind h1 h2 st.line rest st.line [] 0 rfl (Nat.zero_le _)
+    unfold GoodL at g
+    split <;> simp_all [Good]
+    omega
+  · have g := unquotedLoop_good max tooLong h1 st.line st.inp st.line [] 0 rfl (Nat.zero_le _)
+    unfold GoodL at g
+    split <;> simp_all [Good]
+
+/-- a string that does not start at a field end consumes at least one octet -/
+theorem parseString_strict {max : Nat} {tooLong eofKind : Kind} (h1 : tooLong ≠ .ModelStuck)
+    (h2 : eofKind ≠ .ModelStuck) {st st' : St} {s : List UInt8} (hfe : atFieldEnd st.inp = false)
+    (h : parseString max tooLong eofKind st = .ok (s, st')) : st'.inp.length < st.inp.length := by
+  unfold parseString at h
+  split at h
+  · next rest heq =>
+    have g := quotedLoop_good max tooLong eofKind h1 h2 st.line rest st.line [] 0 rfl (Nat.zero_le _)
+    unfold GoodL at g
+    split at h
+    · next s' i' l' hq => rw [hq] at g; cases h; simp [heq]; have := g.2; omega
+    · cases h
+    · cases h
+  · split at h
+    · next s' i' l' hq => cases h; exact unquotedLoop_strict h1 hfe hq
+    · cases h
+    · cases h
+
+theorem T_parseCharacterString : T parseCharacterString (fun s => s.length ≤ 255) :=
+  T_parseString 255 _ _ (by decide) (by decide)
+
 end QV.ZF
